@@ -200,3 +200,30 @@ UNITS.append(Unit('exp.add_block_parameters', (EXP + 'add_block_parameters', Non
                   setup='  static struct CdnsExporter obj; static struct BlockParameters a_bp;\n  __CPROVER_assume(obj.m_active_block_parameters < obj.m_file_preamble.m_block_parameters.n && obj.m_file_preamble.m_block_parameters.n < (1UL << 31) && SEQ_INV_BlockParameters(&a_bp));\n', args=['&obj', '&a_bp'],
                   props=['C12', 'C04'], timeout=300,
                   note='a new parameter set is appended to the preamble\'s list and its index returned; existing sets and the active index are untouched'))
+
+# ---------------------------------------------------------------- constructors: the exporter invariant holds initially (base case of every "for all call histories" claim)
+def _ret(t):
+    return t.replace('($this)->', '$ret.').replace('&$this->', '&$ret.').replace('$this->', '$ret.')
+CTOR_C = '''
+__CPROVER_requires(__CPROVER_w_ok($1, sizeof(*$1)) && g_exc == 0 && MON_FRESH && g_bytes == 0)
+__CPROVER_requires($1->m_block_parameters.n < (1UL << 56) && ($1->m_block_parameters.wi >= $1->m_block_parameters.n || SEQ_INV_BlockParameters(&$1->m_block_parameters.wv)))
+__CPROVER_assigns(seq_BlockParameters__cur, g_exc)
+__CPROVER_ensures(g_exc == 0 || g_exc == EXC_CborOutputException || g_exc == EXC_runtime_error)
+__CPROVER_ensures((g_exc == EXC_runtime_error) == ($1->m_block_parameters.n == 0))
+__CPROVER_ensures(g_exc == 0 ==> (''' + _ret(INV2) + '''))
+__CPROVER_ensures(g_exc == 0 ==> ($ret.m_blocks_written == 0 && $ret.m_active_block_parameters == 0 && $ret.m_file_preamble.m_block_parameters.n == $1->m_block_parameters.n))
+__CPROVER_ensures((g_exc == 0 && $1->m_block_parameters.wi == 0) ==> ''' + _ret(REARMED).replace('$ret.m_file_preamble.m_block_parameters.wv', '$1->m_block_parameters.wv') + ''')
+'''
+for tag, mn, argt in (('fd', '_ZN4CDNS12CdnsExporterC1IiEERNS_12FilePreambleERKT_NS_21CborOutputCompressionE', 'int'),
+                      ('string', '_ZN4CDNS12CdnsExporterC1INSt7__cxx1112basic_stringIcSt11char_traitsIcESaIcEEEEERNS_12FilePreambleERKT_NS_21CborOutputCompressionE', 'cstring')):
+    UNITS.append(Unit('exp.ctor.' + tag, ('@' + mn, None), contract=CTOR_C, prelude=P, pre_c=PRE2, extern_records=EXT,
+                      stubs=BLK_STUBS + ['seq_[A-Za-z0-9_]+__(size|at|assign|push_back|clear)', 'umap_[A-Za-z0-9_]+__(clear|begin)'],
+                      gen_stubs=[(r'^CdnsEncoder__ctor__\w+$', '  struct CdnsEncoder e;\n  if (g_exc) return e;\n  if (nondet_bool()) g_exc = EXC_CborOutputException;   /* the output cannot be opened */\n  return e;')],
+                      inline=[('FilePreamble::get_block_parameters', None), ('CdnsBlock::set_block_parameters', None)],
+                      auto_inline=[r'(?!CdnsEncoder)[A-Za-z]+__ctor__\w+', r'[A-Za-z]+__default', r'[A-Za-z]+__op_assign\w*'],
+                      extra_c='struct seq_u8 g_OpCodesDefault; struct seq_u16 g_RrTypesDefault;\n',
+                      setup='  static struct FilePreamble fp; %s a_out; unsigned char a_c;\n  mon_init();\n  __CPROVER_assume(fp.m_block_parameters.n < (1UL << 56) && (fp.m_block_parameters.wi >= fp.m_block_parameters.n || SEQ_INV_BlockParameters(&fp.m_block_parameters.wv)));\n' % argt,
+                      args=['&fp', '&a_out', 'a_c'], props=['C12', 'C02', 'C13', 'C04'], timeout=600,
+                      post='  if (g_exc != 0) { CANARY("constructor failure reachable"); }',
+                      note='a new exporter satisfies the exporter invariant: nothing emitted, no block written, active parameter set 0 exists (a preamble without parameter sets is refused), '
+                           'the block is empty and armed with the content of parameter set 0'))
